@@ -196,10 +196,21 @@ def order_identity(run, model, rule_order="C05.order", rule_id="C05.identity"):
         for k, p in h.pred:
             if p.kind == "iter":
                 its.append((h, strip_sites(fl.term(p.ast, p))))
-    want = [("call", ("attr", ("param", "kwdefaults"), "items"), (), ()), ("call", ("builtin", "enumerate"), (("param", "args"),), ()), ("call", ("attr", ("param", "kwargs"), "items"), (), ())]
+    # the positional loop: ``enumerate(args)`` indexing the name table, or ``zip`` of the name table and the arguments
+    POS_FORMS = {
+        ("call", ("builtin", "enumerate"), (("param", "args"),), ()): "enumerate",
+        ("call", ("builtin", "zip"), (("param", "param_names"), ("param", "args")), ()): "zip-names-args",
+        ("call", ("builtin", "zip"), (("param", "args"), ("param", "param_names")), ()): "zip-args-names",
+    }
     got = [t for _, t in its]
     dom = fl.cfg.dominators()
-    okorder = got == want and all(a.id in dom[b.id] for (a, _), (b, _) in zip(its, its[1:]))
+    okorder = (
+        len(got) == 3
+        and got[0] == ("call", ("attr", ("param", "kwdefaults"), "items"), (), ())
+        and got[1] in POS_FORMS
+        and got[2] == ("call", ("attr", ("param", "kwargs"), "items"), (), ())
+        and all(a.id in dom[b.id] for (a, _), (b, _) in zip(its, its[1:]))
+    )
     run.check(okorder, rule_order, resolver.qual, "defaults, then positional arguments, then keyword arguments are written (later wins)", "the mapping is not filled in the order defaults < positionals < keywords: loops over %s" % [show(t) for t in got], resolver.loc())
     # stored values are the objects themselves
     for h, it in its:
@@ -209,7 +220,8 @@ def order_identity(run, model, rule_order="C05.order", rule_id="C05.identity"):
         for k, p in h.pred:
             if p.kind == "iter":
                 el = ("elem", fl.term(p.ast, p))
-        val_t = ("idx", el, ("const", "1"))
+        form = POS_FORMS.get(strip_sites(it))
+        val_t = ("idx", el, ("const", "0" if form == "zip-args-names" else "1"))
         bad = None
         nstores = 0
         for p in ps:
@@ -217,16 +229,23 @@ def order_identity(run, model, rule_order="C05.order", rule_id="C05.identity"):
                 nstores += 1
                 if vt != val_t:
                     bad = (n, "stores %s instead of the very object supplied" % show(strip_sites(vt), 60))
-                if strip_sites(it)[1] == ("builtin", "enumerate"):
+                if form == "enumerate":
                     # key = param_names[i]
                     idx = ("idx", el, ("const", "0"))
                     if tt[2] != ("idx", ("param", "param_names"), idx):
                         bad = (n, "the positional argument number i is stored under %s, not under param_names[i]" % show(strip_sites(tt[2]), 60))
+                elif form is not None:
+                    want_key = ("idx", el, ("const", "1" if form == "zip-args-names" else "0"))
+                    if tt[2] != want_key:
+                        bad = (n, "the positional argument is stored under %s, not under the name paired with it" % show(strip_sites(tt[2]), 60))
         if nstores == 0:
             bad = (h, "the loop stores nothing")
         run.check(bad is None, rule_id, "%s:loop over %s" % (resolver.qual, show(it, 40)), "each value is stored as the object itself under its name", bad[1] if bad else "", resolver.loc(bad[0] if bad else h), None, first_line((bad[0] if bad else h).stmt))
     # positional surplus: index guarded by i < len(param_names)
-    ok_guard = any(n.kind == "test" and "len(param_names)" in src_of(n.ast) for n in fl.cfg.nodes)
+    LEN = ("call", ("builtin", "len"), (("param", "param_names"),), ())
+    ok_guard = any(n.kind == "test" and any(sub == LEN for sub in subterms(strip_sites(fl.term(n.ast, n)))) for n in fl.cfg.nodes)
+    # ``zip`` stops at the shorter sequence: the surplus is dropped by construction
+    ok_guard = ok_guard or (len(got) == 3 and POS_FORMS.get(got[1], "").startswith("zip"))
     run.check(ok_guard, rule_id, resolver.qual + ":surplus", "surplus positional arguments are left to *args (index guarded by the table length)", "positions beyond the table are not guarded", resolver.loc())
 
 
